@@ -1379,38 +1379,41 @@ func runWSSKeep(c *Ctx, r *Reporter) {
 	inlineWSS := false
 	if fd := FindFunc(pkg, "(*formatting).writeWSS"); fd != nil {
 		sf := p.SSAFunc(fd.Obj)
-		good := false
 		nWrites := 0
 		for _, b := range sf.Blocks {
 			for _, ins := range b.Instrs {
-				call, ok := ins.(*ssa.Call)
-				if !ok || call.Call.StaticCallee() == nil || call.Call.StaticCallee().Name() != "write" {
-					continue
+				if call, ok := ins.(*ssa.Call); ok && call.Call.StaticCallee() != nil && call.Call.StaticCallee().Name() == "write" {
+					nWrites++
 				}
-				nWrites++
-				for d := b; d != nil; d = d.Idom() {
-					id := d.Idom()
-					if id == nil || len(id.Instrs) == 0 {
-						continue
-					}
-					ifi, ok := id.Instrs[len(id.Instrs)-1].(*ssa.If)
-					if !ok {
-						continue
-					}
-					cond, neg := ifi.Cond, false
-					if u, ok := cond.(*ssa.UnOp); ok && u.Op == token.NOT {
-						cond, neg = u.X, true
-					}
-					if lk, ok := cond.(*ssa.Lookup); ok && loadsField(lk.X, "wss") && len(sf.Params) == 2 && lk.Index == ssa.Value(sf.Params[1]) {
-						edge := 1
-						if neg {
-							edge = 0
-						}
-						if edgeDominates(id, edge, b) {
-							good = true
-						}
-					}
+			}
+		}
+		// on every path to the write, the look-up of the node in the white-space table has come out false: the value
+		// read is false, or the entry is absent (`if !f.wss[n]`, or `tight, recorded := f.wss[n]; if recorded && tight`)
+		isWSSLookup := func(v ssa.Value) (isValue, isPresence bool) {
+			if lk, ok := v.(*ssa.Lookup); ok && !lk.CommaOk && loadsField(lk.X, "wss") && len(sf.Params) == 2 && lk.Index == ssa.Value(sf.Params[1]) {
+				return true, false
+			}
+			if ex, ok := v.(*ssa.Extract); ok {
+				if lk, ok := ex.Tuple.(*ssa.Lookup); ok && lk.CommaOk && loadsField(lk.X, "wss") && len(sf.Params) == 2 && lk.Index == ssa.Value(sf.Params[1]) {
+					return ex.Index == 0, ex.Index == 1
 				}
+			}
+			return false, false
+		}
+		paths := pathsTo(sf, func(ins ssa.Instruction) bool {
+			call, ok := ins.(*ssa.Call)
+			return ok && call.Call.StaticCallee() != nil && call.Call.StaticCallee().Name() == "write"
+		})
+		good := len(paths) > 0
+		for _, pa := range paths {
+			unrecorded := false
+			for _, f := range pa.facts {
+				if isVal, isPres := isWSSLookup(f.Cond); (isVal || isPres) && !f.Truth {
+					unrecorded = true
+				}
+			}
+			if !unrecorded {
+				good = false
 			}
 		}
 		r.Check(good && nWrites == 1, fd.QName()+"#space-only-if-unrecorded", p.Rel(fd.Decl.Pos()), "the space is written only for nodes that were not recorded", "writeWSS writes its space on a path where the node was recorded as white-space sensitive (or unconditionally)")
